@@ -503,3 +503,203 @@ def _eval_member(e, env):
             return None
         return _eval_member(children(s)[1 if c else 2], env)
     return None
+
+
+# --------------------------------------------------------------------------------------
+# Q1 (C19): bounded writes of the size-parameterised string routines
+
+def _sized_dest(f):
+    """(dst param name, size param name) for functions taking `char *dst, size_t size` adjacently"""
+    ps = f.params
+    for i in range(len(ps) - 1):
+        if qtype(ps[i]) == 'char *' and 'size_t' in qtype(ps[i + 1]) and not qtype(ps[i + 1]).endswith('*'):
+            return ps[i].get('name'), ps[i + 1].get('name')
+    return None
+
+
+class FactsA(Facts):
+    """Facts plus facts derived from assignments: v = E - c (c > 0)  =>  v < E ;  v = E  =>  v <= E"""
+
+    def __init__(self, f):
+        self._f = f
+        Facts.__init__(self, f)
+        # second pass: add assignment facts where the assigned variable is not reassigned later before the use:
+        # implemented directly: recompute with an augmented transfer
+        cfg = f.cfg
+        names = {}
+        for x in walk(f.decl):
+            if x.get('kind') in ('VarDecl', 'ParmVarDecl'):
+                names[x.get('id')] = x.get('name')
+        self.IN = {cfg.entry.id: frozenset()}
+        work = [cfg.entry]
+        while work:
+            n = work.pop()
+            st = set(self.IN[n.id])
+            gen = set()
+            killed = set()
+            for (var, rhs, kind, _l) in node_defs(n):
+                nm = names.get(var)
+                if nm is None:
+                    continue
+                killed.add(nm)
+                if kind in ('init', 'assign') and rhs is not None:
+                    v, c = _split_index(rhs)
+                    if re.match(r'^[A-Za-z_]\w*$', v) and v != nm:
+                        if c < 0:
+                            gen.add((nm, '<', v, 'u'))
+                            gen.add((v, '>', nm, 'u'))
+                        elif c == 0:
+                            gen.add((nm, '<=', v, 'u'))
+                            gen.add((v, '>=', nm, 'u'))
+            if killed:
+                st = {ft for ft in st if not (killed & (_tokens(ft[0]) | _tokens(ft[2])))}
+            st |= gen
+            for (s, lab) in n.succs:
+                st2 = set(st)
+                if n.kind == 'cond' and lab in ('T', 'F') and isinstance(n.ast, dict):
+                    c = strip_parens(n.ast)
+                    if c.get('kind') == 'BinaryOperator' and c.get('opcode') in FLIP:
+                        a, b = children(c)
+                        op = c.get('opcode') if lab == 'T' else NEG[c.get('opcode')]
+                        ca, cb = canon(a), canon(b)
+                        st2.add((ca, op, cb, 'u'))
+                        st2.add((cb, FLIP[op], ca, 'u'))
+                old = self.IN.get(s.id)
+                new = frozenset(st2) if old is None else (old & frozenset(st2))
+                if old is None or new != old:
+                    self.IN[s.id] = new
+                    work.append(s)
+
+
+def rule_q1(prog, rep, rid='Q1'):
+    from .hashrules import _loop_nodes
+    rep.rule(rid, 'in the size-parameterised string routines every write into the destination is at an offset < size and the '
+                  'terminator is stored at an offset <= size - 1')
+    unit = 'src/utilities/qstring.c'
+    prog.unit(unit)
+    verified = set()
+    funcs = [f for f in sorted(prog.funcs_in(unit), key=lambda x: x.line or 0) if _sized_dest(f)]
+    rep.notes['sized_destination_functions'] = [f.name for f in funcs]
+    for _round in range(2):
+        for f in funcs:
+            if f.name in verified:
+                continue
+            dst, size = _sized_dest(f)
+            facts = FactsA(f)
+            bad = []
+            nwrites = 0
+            delegates = False
+            # cursors initialised from dst
+            aliases = {dst}
+            for x in walk(f.body):
+                if x.get('kind') == 'VarDecl' and qtype(x) == 'char *':
+                    from .expr import var_init
+                    init = var_init(x)
+                    if init is not None and access_path(init) == dst:
+                        aliases.add(x.get('name'))
+            for n in f.cfg.nodes:
+                if n.id not in f.cfg.reachable or not isinstance(n.ast, dict) or n.kind == 'macro':
+                    continue
+                st = facts.at(n)
+                for x in walk(n.ast):
+                    if x.get('kind') == 'CallExpr':
+                        nm = prog.callee_name(x)
+                        args = children(x)[1:]
+                        if nm in ('memmove', 'memcpy', 'strncpy') and args and access_path(args[0]) == dst:
+                            nwrites += 1
+                            ln = canon(args[2])
+                            ok = any(ft[0] == ln and ft[1] == '<' and ft[2] == size for ft in st)
+                            if not ok:
+                                bad.append((x.get('_line'), '%s() of %s bytes into %s without %s < %s established' % (nm, ln, dst, ln, size)))
+                        elif nm in verified and len(args) >= 2 and access_path(args[0]) == dst and access_path(args[1]) == size:
+                            delegates = True
+                            nwrites += 1
+                        elif nm in ('strcpy', 'strcat', 'sprintf') and args and access_path(args[0]) == dst:
+                            nwrites += 1
+                            bad.append((x.get('_line'), 'unbounded %s() into %s' % (nm, dst)))
+                    elif x.get('kind') == 'BinaryOperator' and x.get('opcode') == '=':
+                        l = strip(children(x)[0])
+                        if l.get('kind') == 'ArraySubscriptExpr' and access_path(children(l)[0]) == dst:
+                            nwrites += 1
+                            k = canon(children(l)[1])
+                            ok = any(ft[0] == k and ft[1] == '<' and ft[2] == size for ft in st)
+                            if not ok:
+                                bad.append((x.get('_line'), 'store to %s[%s] without %s < %s established' % (dst, k, k, size)))
+            # cursor writes (*to = ...; to++) inside a loop bounded by i < size - 1 with to advancing no faster than i
+            cur = aliases - {dst}
+            for c in sorted(cur):
+                stores = [x for x in walk(f.body) if x.get('kind') == 'BinaryOperator' and x.get('opcode') == '='
+                          and strip(children(x)[0]).get('kind') == 'UnaryOperator' and strip(children(x)[0]).get('opcode') == '*'
+                          and access_path(children(strip(children(x)[0]))[0]) == c]
+                if not stores:
+                    continue
+                nwrites += len(stores)
+                okc = False
+                why = 'no loop bounded by %s - 1 found' % size
+                for (head, loop) in f.cfg.loops:
+                    cond = loop['inner'][2] if loop.get('kind') == 'ForStmt' else loop['inner'][0]
+                    if not cond:
+                        continue
+                    cc = canon(cond)
+                    m = re.search(r'\((\w+) < \(%s - 1\)\)' % re.escape(size), cc)
+                    if not m:
+                        continue
+                    ivar = m.group(1)
+                    body = _loop_nodes(f.cfg, head)
+                    # on every cycle: (#advances of c) <= (#advances of ivar)
+                    worst = _max_excess(f.cfg, head, body, c, ivar)
+                    starts0 = any(x.get('kind') == 'BinaryOperator' and x.get('opcode') == '=' and access_path(children(x)[0]) == ivar
+                                  and int_value(children(x)[1]) == 0 for x in walk(loop))
+                    if worst is not None and worst <= 0 and starts0:
+                        okc = True
+                    else:
+                        why = 'the cursor %s can advance faster than the bounded counter %s' % (c, ivar)
+                if not okc:
+                    bad.append((stores[0].get('_line'), 'writes through cursor %s: %s' % (c, why)))
+            rep.instance(rid)
+            ok = not bad and nwrites > 0
+            if ok:
+                verified.add(f.name)
+            if _round == 1 or ok:
+                rep.oblige(rid, ok, {'function': f.name, 'destination': dst, 'size': size, 'writes_checked': nwrites,
+                                     'delegates_to_verified': delegates})
+                for (line, msg) in bad[:2]:
+                    rep.violation(rid, f, line, 'write:%s' % msg.split()[0], '%s(%s, %s, ...): %s' % (f.name, dst, size, msg))
+                if not bad and nwrites == 0:
+                    rep.broken_if(True, '%s: no write into the sized destination was recognised' % f.name)
+            else:
+                rep.rules[rid]['instances'] -= 1
+
+
+def _max_excess(cfg, head, body, cvar, ivar):
+    """max over cycle paths head->head of (#cvar++ - #ivar++); None if unbounded"""
+    best = {}
+    work = [(s, 0) for (s, _l) in head.succs if s.id in body]
+    worst = None
+    steps = 0
+    while work:
+        steps += 1
+        if steps > 20000:
+            return None
+        n, ex = work.pop()
+        if n is head:
+            worst = ex if worst is None else max(worst, ex)
+            continue
+        if n.id not in body:
+            continue
+        if isinstance(n.ast, dict) and n.kind != 'macro':
+            for x in walk(n.ast):
+                if x.get('kind') == 'UnaryOperator' and x.get('opcode') == '++':
+                    p = access_path(children(x)[0])
+                    if p == cvar:
+                        ex += 1
+                    elif p == ivar:
+                        ex -= 1
+                elif x.get('kind') == 'CompoundAssignOperator' and access_path(children(x)[0]) == cvar:
+                    return None
+        if best.get(n.id, -99) >= ex:
+            continue
+        best[n.id] = ex
+        for (s, _l) in n.succs:
+            work.append((s, ex))
+    return worst
